@@ -194,6 +194,17 @@ func main() {
 	ld := newLoader(&spec, hdir, scratch)
 	if len(spec.Gen) > 0 {
 		if err := ld.regenerate(); err != nil {
+			if strings.Contains(err.Error(), "source formatting error") {
+				// `templ generate` emitted Go code that gofmt rejects for a corpus template:
+				// "generated Go code compiles" is violated before anything can be rendered
+				rdir := filepath.Join(verifDir, "replays", prop)
+				os.MkdirAll(rdir, 0o755)
+				rp := filepath.Join(rdir, "generate-0.json")
+				writeJSON(rp, map[string]interface{}{"property": prop, "kind": "generate", "errors": err.Error()})
+				fmt.Printf("VIOLATION property=%s replay=%s\n  the current generator emits Go code that does not parse for a corpus template: %v\n", prop, rp, err)
+				writeCompileEvidence(prop, *tier, seed, &spec, err.Error(), time.Since(t0))
+				exit(1)
+			}
 			fatal(2, "regeneration failed: %v", err)
 		}
 	}
@@ -717,6 +728,15 @@ func doReplay(spec *Spec, hdir, scratch, path string) int {
 	if err := readJSON(path, &rf); err != nil {
 		fmt.Println("cannot read replay file:", err)
 		return 2
+	}
+	if rf.Kind == "generate" {
+		ld := newLoader(spec, hdir, scratch)
+		if err := ld.regenerate(); err != nil && strings.Contains(err.Error(), "source formatting error") {
+			fmt.Printf("replay %s: %v\nVIOLATION property=%s replay=%s\n", path, err, rf.Property, path)
+			return 1
+		}
+		fmt.Println("the corpus regenerates on the current tree")
+		return 0
 	}
 	if rf.Kind == "compile" {
 		ld := newLoader(spec, hdir, scratch)
